@@ -34,6 +34,14 @@ class Transform(data_input.DataInputAbstract, Numbered_MCNP_Object):
         self._is_main_to_aux = True
         super().__init__(input)
         if input:
+            # a transform is numbers only: no leading keyword, no key=value parameters
+            keyword = self._tree["keyword"] if "keyword" in self._tree else None
+            if (keyword is not None and keyword.value) or (
+                "parameters" in self._tree and len(self._tree["parameters"].nodes) > 0
+            ):
+                raise MalformedInputError(
+                    input, "A transform input holds numbers only; a word was given"
+                )
             # the entries after shortcut expansion (one per value), not the syntax nodes
             words = list(self._tree["data"])
             if len(words) < 3:
